@@ -278,7 +278,7 @@ def spec(c, io, mo):
                 c['_class'] = 'star'
                 return 'STAR returns %s, run-off of %d and %d is won by %d (%s:%s)' % (res, a, b2, want, pa, pb)
     if u in ('score', 'mj') and v[0] != 0 and v[1] not in (common.E['NIE'], common.E['VSE']):
-        c['_class'] = 'trunc-empty' if c['cfg']['trunc'] in ('1', '2') else ('mj-default-stats' if u == 'mj' and not c.get('plus') else u + '-crash')
+        c['_class'] = 'trunc-empty' if trunc_empties(c) else ('mj-default-stats' if u == 'mj' and not c.get('plus') else u + '-crash')
         return '%s raises %s (trunc=%s min_count=%s unscored=%s)' % (u, c.get('_exc'), c['cfg']['trunc'], c['cfg']['min_count'], c['cfg']['unscored'])
     if u in ('star', 'alloc') and v[0] != 0 and v[1] not in (common.E['NIE'], common.E['VSE']):
         c['_class'] = u + '-crash'
@@ -296,6 +296,25 @@ def spec(c, io, mo):
             c['_class'] = 'alloc-shape'
             return 'allocated score returns %s for %d seats' % (res, c['n'])
     return None
+
+
+def trunc_empties(c):
+    """the truncation cut-off (an absolute count, or a fraction of ALL voters) removes every score of some candidate:
+    twice the cut-off >= the number of scores the candidate holds (known finding C12-truncation-empties)"""
+    tr = q(c['cfg']['trunc'])
+    if tr <= 0:
+        return False
+    n_votes = sum(q(w) for _, w in c['votes'])
+    counts = {}
+    for b, w in c['votes']:
+        for cc, _s in b:
+            counts[cc] = counts.get(cc, 0) + q(w)
+    for cc, n_scores in counts.items():
+        n_eff = n_votes if c['cfg']['unscored'] != 'none' else n_scores
+        cutoff = int((n_votes if n_votes else n_eff) * tr) if tr < 1 else int(tr)
+        if cutoff > 0 and 2 * cutoff >= n_eff:
+            return True
+    return False
 
 
 def known_class(c, io, mo):
